@@ -517,6 +517,121 @@ pub fn run_sql_type(idx: usize, rep: &mut ChunkReport) {
     let _ = sql_val;
 }
 
+
+// ------------------------------------------------------------------------------------------------
+// composite index keys: every ordered pair / triple of column types
+
+/// (declaration, three distinct literals that every numeric path represents exactly)
+pub fn key_types() -> Vec<(&'static str, Vec<&'static str>)> {
+    vec![
+        ("INT", vec!["-3", "1", "7"]),
+        ("BIGINT", vec!["-3", "1", "4294967303"]),
+        ("UINT", vec!["0", "1", "7"]),
+        ("BIGUINT", vec!["0", "1", "4294967303"]),
+        ("FLOAT", vec!["-1.5", "0.25", "1.5"]),
+        ("DOUBLE", vec!["-1.5", "0.25", "1.5"]),
+        ("TEXT", vec!["'a'", "'ab'", "'b'"]),
+        ("BOOLEAN", vec!["TRUE", "FALSE"]),
+    ]
+}
+
+pub fn composite_len() -> u64 {
+    let n = key_types().len() as u64;
+    n * n + n * n * n
+}
+
+/// One case = one ordered tuple of key column types. The table has UNIQUE(k0, k1[, k2]); every combination of
+/// the per-type literals is stored (in a scattered order), must then be found by the unique check (second insert
+/// refused), must be found by a point query on all key columns, and a combination that was left out must be
+/// accepted exactly once.
+pub fn run_composite(idx: u64, rep: &mut ChunkReport) {
+    let kt = key_types();
+    let n = kt.len() as u64;
+    let cols: Vec<usize> = if idx < n * n { vec![(idx / n) as usize, (idx % n) as usize] } else {
+        let j = idx - n * n;
+        vec![(j / (n * n)) as usize, ((j / n) % n) as usize, (j % n) as usize]
+    };
+    let decls: Vec<&str> = cols.iter().map(|c| kt[*c].0).collect();
+    let name = decls.join(",");
+    rep.sample = format!("UNIQUE key ({name})");
+    let mut fail = |rep: &mut ChunkReport, m: String| {
+        if rep.failures.len() < 10 {
+            rep.failures.push(tag(&[], format!("[composite {name}] {m}")));
+        }
+    };
+    let mut db = match Db::create("val", Cfg::default()) {
+        Ok(d) => d,
+        Err(e) => {
+            fail(rep, format!("cannot create database: {e}"));
+            return;
+        }
+    };
+    let coldefs: Vec<String> = decls.iter().enumerate().map(|(i, d)| format!("k{i} {d}")).collect();
+    let keynames: Vec<String> = (0..cols.len()).map(|i| format!("k{i}")).collect();
+    let o = db.exec(&format!("CREATE TABLE c (id INT, {}, UNIQUE({}))", coldefs.join(", "), keynames.join(", ")));
+    if !matches!(o, Out::Ddl) {
+        fail(rep, format!("CREATE TABLE with the composite UNIQUE key: {}", o.show()));
+        return;
+    }
+    // all combinations
+    let mut combos: Vec<Vec<&str>> = vec![vec![]];
+    for c in &cols {
+        let mut next = vec![];
+        for pre in &combos {
+            for lit in &kt[*c].1 {
+                let mut x = pre.clone();
+                x.push(*lit);
+                next.push(x);
+            }
+        }
+        combos = next;
+    }
+    // scattered insertion order (stride coprime to the count), last combination in that order is held back
+    let m = combos.len();
+    let stride = [7usize, 5, 11, 13].into_iter().find(|s| m % s != 0).unwrap_or(1);
+    let order: Vec<usize> = (0..m).map(|i| (i * stride + 3) % m).collect();
+    let (held, stored) = order.split_last().unwrap();
+    for i in stored {
+        rep.evaluations += 1;
+        let o = db.exec(&format!("INSERT INTO c VALUES ({i}, {})", combos[*i].join(", ")));
+        if o != Out::Count(1) {
+            fail(rep, format!("INSERT of the new key ({}) was not accepted: {}", combos[*i].join(", "), o.show()));
+            return;
+        }
+    }
+    for i in stored {
+        rep.evaluations += 1;
+        rep.nontrivial += 1;
+        let o = db.exec(&format!("INSERT INTO c VALUES ({}, {})", 1000 + i, combos[*i].join(", ")));
+        if !matches!(o, Out::Err(crate::sqldrv::ErrClass::Unique, _)) {
+            fail(rep, format!("second INSERT of the stored key ({}): {} (a stored key must compare equal to itself on lookup)", combos[*i].join(", "), o.show()));
+        }
+    }
+    for i in stored {
+        rep.evaluations += 1;
+        rep.nontrivial += 1;
+        let cond: Vec<String> = combos[*i].iter().enumerate().map(|(j, l)| format!("k{j} = {l}")).collect();
+        match db.exec(&format!("SELECT id FROM c WHERE {}", cond.join(" AND "))) {
+            Out::Rows(rows) => {
+                let got: Vec<i128> = rows.iter().map(|r| if let Val::Int(x) = r[0] { x } else { -1 }).collect();
+                if got != vec![*i as i128] {
+                    fail(rep, format!("point query for the stored key ({}) returns ids {:?}, expected [{i}]", combos[*i].join(", "), got));
+                }
+            }
+            o => fail(rep, format!("point query for ({}) failed: {}", combos[*i].join(", "), o.show())),
+        }
+    }
+    rep.evaluations += 2;
+    let o = db.exec(&format!("INSERT INTO c VALUES ({held}, {})", combos[*held].join(", ")));
+    if o != Out::Count(1) {
+        fail(rep, format!("INSERT of the key ({}) that is not stored yet was refused: {}", combos[*held].join(", "), o.show()));
+    }
+    match db.exec("SELECT COUNT(*) FROM c") {
+        Out::Rows(rows) if rows.len() == 1 && rows[0][0] == Val::Int(m as i128) => {}
+        o => fail(rep, format!("table should hold {m} rows at the end: {}", o.show())),
+    }
+}
+
 pub fn grid_len() -> u64 {
     grid().len() as u64
 }
@@ -553,6 +668,11 @@ pub fn worker(_params: &Value, case: &Value) -> Value {
         "sql" => {
             for i in c.start..c.end {
                 run_sql_type(i as usize, &mut rep);
+            }
+        }
+        "composite" => {
+            for i in c.start..c.end.min(composite_len()) {
+                run_composite(i, &mut rep);
             }
         }
         _ => {}
